@@ -9,6 +9,7 @@ import Sftp.Driver.C18
 import Sftp.Driver.C11
 import Sftp.Driver.ClientConn
 import Sftp.Driver.Transfer
+import Sftp.Driver.C10
 /-
   `sftpmodel`: line-protocol driver for the executable models.
   One case per input line (`op arg…`), one output line per case.
@@ -18,7 +19,7 @@ open Sftp
 def allOps : List (String × (List String → String)) :=
   Sftp.Driver.C17.ops ++ Sftp.Driver.C09.ops ++ Sftp.Driver.C10Path.ops ++ Sftp.Driver.Codec.ops ++
   Sftp.Driver.C16.ops ++ Sftp.Driver.C15.ops ++ Sftp.Driver.C02.ops ++
-  Sftp.Driver.C18.ops ++ Sftp.Driver.C11.ops ++ Sftp.Driver.ClientConn.ops ++ Sftp.Driver.Transfer.ops
+  Sftp.Driver.C18.ops ++ Sftp.Driver.C11.ops ++ Sftp.Driver.ClientConn.ops ++ Sftp.Driver.Transfer.ops ++ Sftp.Driver.C10.ops
 
 def step (line : String) : String :=
   match (line.trimAscii.toString.splitOn " ").filter (· ≠ "") with
